@@ -50,35 +50,61 @@ def is_system(f):
     return (getattr(f, "category", None) or "").lower() == "system"
 
 
-def setup_report(code, filename=None, offset=0):
-    from pedal.core.report import MAIN_REPORT
+OWN_REPORT_MODES = (None, "contextualized", "no-submission")
+
+
+def setup_report(code, filename=None, offset=0, own_report=None):
+    """own_report: None = pedal's MAIN_REPORT (the default argument of tifa_analysis); "contextualized" = a Report()
+    of our own that got the submission; "no-submission" = a bare Report() (tifa_analysis(code, report=Report()))."""
+    from pedal.core.report import MAIN_REPORT, Report
     from pedal.core.commands import contextualize_report
     from pedal.core.submission import Submission
-    if filename is None:
-        contextualize_report(code)
+    if own_report:
+        MAIN_REPORT.clear()
+        report = Report()
+        if own_report == "no-submission":
+            return report
     else:
-        contextualize_report(Submission({filename: code}, filename))
+        report = MAIN_REPORT
+    if filename is None:
+        contextualize_report(code, report=report)
+    else:
+        contextualize_report(Submission({filename: code}, filename), report=report)
     if offset:
-        MAIN_REPORT.submission.line_offsets[MAIN_REPORT.submission.main_file] = offset
-    return MAIN_REPORT
+        report.submission.line_offsets[report.submission.main_file] = offset
+    return report
 
 
 def one_call(report, base, code, bare, first=None):
-    """One tifa_analysis call -> JSON-able record (or {'raised': ...})."""
+    """One tifa_analysis call -> JSON-able record (or {'raised': ...}).  `base` = number of feedback objects on the
+    report before the first call; with a report of our own, (that, the number on MAIN_REPORT)."""
     from pedal.tifa import tifa_analysis
+    from pedal.core.report import MAIN_REPORT
+    own = report is not MAIN_REPORT
+    if isinstance(base, tuple):
+        base, main_base = base
+    else:
+        main_base = 0
     try:
-        t = tifa_analysis() if bare else tifa_analysis(code)
+        if own:
+            t = tifa_analysis(report=report) if bare else tifa_analysis(code, report=report)
+        else:
+            t = tifa_analysis() if bare else tifa_analysis(code)
     except BaseException as e:
         return None, {"raised": type(e).__name__ + ": " + str(e)[:120] if _safe_str(e) else type(e).__name__,
                       "raised_class": type(e).__name__}
     fbs = report.feedback[base:]
-    call = {"success": bool(t.success), "issues": canon_issues(t), "feedback": len(fbs),
-            "system": sum(1 for f in fbs if is_system(f)), "same_object": first is None or t is first}
+    elsewhere = MAIN_REPORT.feedback[main_base:] if own else []
+    # feedback attached ANYWHERE counts (a repeated analysis must attach none, on whichever report)
+    call = {"success": bool(t.success), "issues": canon_issues(t), "feedback": len(fbs) + len(elsewhere),
+            "system": sum(1 for f in fbs + elsewhere if is_system(f)), "same_object": first is None or t is first}
+    if own:
+        call["on_main_report_instead"] = len(elsewhere)
     if not t.success:
         call["error_class"] = type(t.error).__name__
         call["error"] = (str(t.error)[:160] if _safe_str(t.error) else "<unprintable>")
         call["where"] = where_of(t.error) if isinstance(t.error, BaseException) else "?"
-        call["parse_failed"] = any(is_system(f) and "Could not parse" in str(getattr(f, "message", "")) for f in fbs)
+        call["parse_failed"] = any(is_system(f) and "Could not parse" in str(getattr(f, "message", "")) for f in fbs + elsewhere)
     return t, call
 
 
@@ -90,19 +116,24 @@ def _safe_str(e):
         return False
 
 
-def observe(code, offset=0, repeats=2, filename=None, bare=False):
+def _bases(report):
+    from pedal.core.report import MAIN_REPORT
+    return len(report.feedback) if report is MAIN_REPORT else (len(report.feedback), len(MAIN_REPORT.feedback))
+
+
+def observe(code, offset=0, repeats=2, filename=None, bare=False, own_report=None):
     """Fresh report; `repeats`+1 calls of tifa_analysis on the same code.  Returns a JSON-able dict; never
     raises (an escaping exception is recorded under 'raised')."""
     res = {"calls": []}
     try:
-        report = setup_report(code, filename, offset)
+        report = setup_report(code, filename, offset, own_report)
     except BaseException as e:   # not TIFA's business
         res["setup_error"] = type(e).__name__
         return res
-    base = len(report.feedback)
+    base = _bases(report)
     first = None
     for k in range(repeats + 1):
-        t, call = one_call(report, base, code, bare, first)
+        t, call = one_call(report, base, code, bare and own_report != "no-submission", first)
         if t is None:
             res.update(call)
             return res
@@ -112,15 +143,15 @@ def observe(code, offset=0, repeats=2, filename=None, bare=False):
     return res
 
 
-def observe_history(codes, calls, offset=0, filename=None):
+def observe_history(codes, calls, offset=0, filename=None, own_report=None):
     """Fresh report whose main code is codes[0]; then tifa_analysis(codes[i]) for i in calls.
     -> list of call records (stops at the first escaping exception)."""
     out = []
     try:
-        report = setup_report(codes[0], filename, offset)
+        report = setup_report(codes[0], filename, offset, own_report)
     except BaseException as e:
         return [{"setup_error": type(e).__name__}]
-    base = len(report.feedback)
+    base = _bases(report)
     for i in calls:
         t, call = one_call(report, base, codes[i], False)
         out.append(call)
@@ -344,15 +375,93 @@ LEAK_VALUES = [
 ]
 
 
-def state_leak_programs():
+LEAK_HEAD = "import math\nimport random\nimport json\nimport string\n"
+
+# A leak stays in the process: once a shared Type object has got the attribute `extra`, every later probe that
+# reads `extra` through the same object sees it in BOTH of its analyses and looks deterministic.  Every probe
+# therefore gets attribute names that were never used before in this process (`extra` -> `extra<N>`).
+_LEAK_COUNTER = [0]
+
+
+def fresh_leak_names(code):
+    """Replace every attribute name `extra` / `extra<digits>` by one that no earlier probe of this process used."""
+    import re
+    mapping = {}
+
+    def sub(m):
+        if m.group(0) not in mapping:
+            _LEAK_COUNTER[0] += 1
+            mapping[m.group(0)] = "extra%d" % _LEAK_COUNTER[0]
+        return mapping[m.group(0)]
+    return re.sub(r"\bextra\d*\b", sub, code)
+
+
+# element values x the way a container is built from them x the PATH by which the element is reached again:
+# an element type TIFA takes from a shared object (a class-level `parents=[IntType()]` instance returned by
+# promote(), a builtin's return type declared once) is written through the path and read back by the next analysis
+LEAK_ELEMENTS = ["3", "2.5", "'a'", "True", "None", "(1, 2)", "[1]", "{'k': 1}", "input()", "len('a')", "int('3')", "1j", "b'x'",
+                 "abs(-1)", "3 + 4", "-3", "not True", "2.5 * 2", "'a' + 'b'", "'a' * 2", "1 < 2", "3 if input() else 4",
+                 "round(2.5)", "max(1, 2)", "float('1')", "str(1)", "bool(1)", "math.pi", "math.sqrt(4.0)",
+                 "random.randint(1, 2)", "random.random()"]
+LEAK_CONTAINERS = ["[%s]", "[%s, %s]", "(%s,)", "(%s, %s)", "{%s}", "{'k': %s}", "{%s: 0}", "[[%s]]", "[%s] * 2", "[%s] + [%s]",
+                   "list([%s])", "sorted([%s])", "tuple([%s])", "set([%s])", "[%s for _ in range(2)]", "[e for e in [%s]]",
+                   "{'k': [%s]}"]
+LEAK_PATHS = ["probe[0]", "probe['k']", "probe[0][0]", "probe['k'][0]", "probe.pop()", "max(probe)", "min(probe)",
+              "sorted(probe)[0]", "list(probe)[0]", "next(iter(probe))", "probe.get('k')", "probe.copy()[0]", "sum(probe)",
+              "probe[0:1][0]", "probe[-1]"]
+LEAK_SHAPES = [
+    "probe = {c}\nfor element in probe:\n    print(element.extra + 1)\n    element.extra = 5\n",
+    "probe = {c}\nfor element in probe:\n    element.extra += 1\n",
+    "probe = {c}\nprint([element.extra + 1 for element in probe])\nfor element in probe:\n    element.extra = 5\n",
+    "def use(things):\n    first = things[0]\n    print(first.extra + 1)\n    first.extra = 5\nuse({c})\n",
+    "first, *others = {c}\nprint(first.extra + 1)\nfirst.extra = 5\n",
+    "probe = {c}\nfor key, element in probe.items():\n    print(element.extra + 1, key.extra + 1)\n    element.extra = 5\n    key.extra = 5\n",
+    "probe = {c}\nfor index, element in enumerate(probe):\n    print(element.extra + 1, index.extra + 1)\n    element.extra = 5\n    index.extra = 5\n",
+    "probe = {c}\nfor left, right in zip(probe, probe):\n    print(left.extra + 1)\n    left.extra = 5\n",
+    "probe = {c}\nprobe[0][0] += 1\nprobe[0][0] = 'a'\nprint(probe[0][0] + 1)\n",
+    "probe = {c}\nfor element in probe:\n    print(element + 1)\nprobe.append('txt')\n",
+    "probe = {c}\nfor element in probe:\n    print(element + 1)\nprobe.add('txt')\n",
+    "probe = {c}\nprint(probe['k'] + 1)\nprobe['k'] = 'txt'\n",
+]
+LEAK_VALUE_SHAPES = [
+    "probe = {v}\nprobe.extra += 1\nprobe.extra = 2\nprint(probe)\n",
+    "probe = {v}\nprobe.extra += 'a'\nprobe.extra = 'b'\nprint(probe.extra)\n",
+    "probe = {v}\nprobe[0] += 'a'\nprobe[0] = 'b'\nprint(probe[0] + 1)\n",
+    "def use(thing):\n    thing.extra += 1\n    thing.extra = [1]\n    return thing\nprint(use({v}).extra)\n",
+    "def make():\n    return {v}\nprint(make().extra + 1)\nmake().extra = 5\n",
+    "def use(thing={v}):\n    print(thing.extra + 1)\n    thing.extra = 5\nuse()\n",
+    "def use(thing: int):\n    print(thing.extra + 1)\n    thing.extra = 5\nuse({v})\n",
+    "probe = {v}\nfor element in probe:\n    print(element + 1)\nprobe.append('txt')\n",
+    "probe = {v}\nprint(probe['k'] + 1)\nprobe['k'] = 'txt'\n",
+]
+
+
+def leak_fragments(full):
+    """-> [fragment text]; `full` = the whole product (thorough), else every element x container x the main paths
+    plus every path for three element kinds."""
     out = []
-    head = "import math\nimport random\nimport json\nimport string\n"
-    for v in LEAK_VALUES:
-        out.append(head + "probe = %s\nprobe.extra += 1\nprobe.extra = 2\nprint(probe)\n" % v)
-        out.append(head + "probe = %s\nprobe.extra += 'a'\nprobe.extra = 'b'\nprint(probe.extra)\n" % v)
-        out.append(head + "probe = %s\nprobe[0] += 'a'\nprobe[0] = 'b'\nprint(probe[0] + 1)\n" % v)
-        out.append(head + "def use(thing):\n    thing.extra += 1\n    thing.extra = [1]\n    return thing\n"
-                          "print(use(%s).extra)\n" % v)
+    values = LEAK_VALUES + [e for e in LEAK_ELEMENTS if e not in LEAK_VALUES]
+    for v in values:
+        out += [sh.replace("{v}", v) for sh in LEAK_VALUE_SHAPES]
+    for e in LEAK_ELEMENTS:
+        for c in LEAK_CONTAINERS:
+            cont = c.replace("%s", e)
+            main_path = "probe['k']" if c.startswith("{'k'") else "probe[0]"
+            paths = LEAK_PATHS if (full or e in ("3", "[1]")) else [main_path]
+            for p in paths:
+                out.append("probe = %s\nprint(%s.extra + 1)\n%s.extra = 5\n" % (cont, p, p))
+            shapes = LEAK_SHAPES if (full or e in ("3", "'a'", "[1]")) else [LEAK_SHAPES[0], LEAK_SHAPES[3]]
+            out += [sh.replace("{c}", cont) for sh in shapes]
+    return out
+
+
+def state_leak_programs(full=False, chunk=20):
+    """Packed probes (each with attribute names no earlier probe used); every program is analysed twice on
+    fresh reports by the caller."""
+    frags = leak_fragments(full)
+    out = []
+    for k in range(0, len(frags), chunk):
+        out.append(LEAK_HEAD + "".join(fresh_leak_names(f) for f in frags[k:k + chunk]))
     return out
 
 
@@ -1254,3 +1363,308 @@ def line_terminator_variants(rng, code):
     i = rng.randrange(len(lines))
     lines[i] = lines[i] + "  # note%sned" % sep if lines[i].strip() and not lines[i].rstrip().endswith(("'''", '"""', "\\")) else lines[i]
     return "\n".join(lines)
+
+
+# --------------------------------------------------------------------------------------------
+# BOUNDARY FAMILIES (must-complete programs of the introductory subset with one student slip each).
+#
+# TIFA's types carry statically known SIZES (the element types of a tuple, the parameters of a function, the
+# type arguments of an annotation, the arguments of a call) and the visitor compares literal positions and
+# argument counts against them (`key.value >= len(self.element_types)`, `len(arguments) == 1`,
+# `len(type_arguments) != 2`, `len(pos_parameters) < len(arguments)`, `len(self.scope_chain) > 1` ...).  An
+# off-by-one in any of these comparisons shows only when a program sits exactly ON the limit.  The families
+# below therefore put every position / count from well below to well above every size that occurs:
+#   index     : 40+ value sources of static size 0..4 (tuple literals, divmod, partition, as_integer_ratio, modf,
+#               dict.items()/enumerate/zip elements, multi-value returns, *args, annotated tuple parameters ...)
+#               subscripted with every literal position -5..5, booleans, constant expressions, a variable holding
+#               the position, slices with every bound, tuple / string / None / float keys, as a load, a store, a
+#               deletion and an augmented assignment
+#   arity     : every documented builtin / method / module function (the generated table) called with no argument,
+#               one fewer, one more, two more, all-None, reversed and an extra keyword argument; user functions with
+#               0..3 parameters x 0..p defaults x *rest/**kw/keyword-only called with 0..p+2 arguments and a keyword
+#   unpack    : k = 1..4 targets (nested, starred, attribute and subscript targets) against sources of size 0..3,
+#               in assignments, for-loops and comprehensions
+#   annotation: list/dict/tuple/set/... [0..3 type arguments, `(T,)`, `...`, nested] on variables, parameters and
+#               returns, and indexing such a parameter
+#   receiver  : every str/list/dict/set/tuple method on receivers of size 0, 1, 2 (same type and mixed)
+#   nesting   : return/def/class/global/if-pass at depth 0..3
+# Quick tier PACKS the fragments of one group into one program (an internal failure anywhere makes the whole
+# analysis fail, and the line shrinker isolates the line); the thorough tier also runs every fragment on its own.
+
+BOUNDARY_HEAD = "import math\nimport os\nimport sys\n"
+
+INDEX_SOURCES = [
+    "()", "(1,)", "(1, 'a')", "(1, 'a', 2.5)", "(1, 2, 3, 4)", "divmod(17, 5)", "(5).as_integer_ratio()",
+    "(2.5).as_integer_ratio()", "'a-b'.partition('-')", "'a-b'.rpartition('-')", "tuple([1, 2])", "tuple('ab')",
+    "(1, 2) + (3,)", "(1, 2) * 2", "math.modf(2.5)", "math.frexp(8.0)", "((1, 2), (3,))", "[1, 2]", "[]", "'ab'", "''",
+    "{'a': 1}", "{}", "{0: 'a', 1: 'b'}", "[(1, 'a')]", "{'k': (1, 2)}['k']", "[(1, 2)][0]",
+    "sorted({'a': 1}.items())[0]", "list(zip([1], 'a'))[0]", "list(enumerate('ab'))[0]", "max([(1, 2)])",
+    "os.path.split('a/b')", "os.path.splitext('a.b')", "sys.argv", "sys.version_info", "range(3)", "{1, 2}", "input()",
+    "5", "None", "len", "b'ab'", "'a b'.split()", "[[1, 2], [3]]", "pair()", "triple()", "nothing()", "several(1, 2)",
+]
+# how a value of static size reaches a NAME without being written as an expression: (setup lines, name)
+INDEX_BINDINGS = [
+    (["for value in {'ann': 90, 'bob': 72}.items():"], "value"), (["for value in enumerate(['a', 'b']):"], "value"),
+    (["for value in zip([1], [2]):"], "value"), (["for value in zip([1], [2], [3]):"], "value"),
+    (["for value in zip([1]):"], "value"), (["for value in zip():"], "value"),
+    (["for value in [(1, 'a'), (2, 'b')]:"], "value"), (["for value in sorted({'a': 1}.items()):"], "value"),
+    (["for value in [(1,), (2,)]:"], "value"), (["for value in [(), ()]:"], "value"),
+    (["for value in {(1, 2): 'a'}:"], "value"), (["for value in {'a': (1, 2)}.values():"], "value"),
+    (["def reader(value: tuple[int, str]):"], "value"), (["def reader(value: tuple[int]):"], "value"),
+    (["def reader(value: tuple[()]):"], "value"), (["def reader(value: tuple[int, ...]):"], "value"),
+    (["def reader(*value):"], "value"), (["def reader(value=(1, 2)):"], "value"),
+    (["first, *value = [1, 2, 3]", "if True:"], "value"), (["first, *value = (1, 'a', 2.5)", "if True:"], "value"),
+    (["with open('data.txt') as handle:", "    value = handle.readline().partition(',')"], "value"),
+]
+INDEX_DEFS = ("def pair():\n    return 1, 'a'\ndef triple():\n    return 1, 'a', 2.5\ndef nothing():\n    return ()\n"
+              "def several(*values):\n    return values\n")
+INDEX_GROUPS = {
+    "negative": [str(k) for k in range(-5, 0)],
+    "position": [str(k) for k in range(0, 6)],
+    "computed": ["True", "False", "1 + 1", "2 - 1", "3 - 1", "len('ab')", "0 + 0", "+2", "--2", "int('2')", "2 if value else 3"],
+    "slice": ["0:", ":0", "1:", ":1", "2:", ":2", "3:", ":3", "2:2", "::2", "-1:", ":-1", "::-1", ":", "0:2:1", "-3:-2"],
+    "key": ["0, 1", "'a'", "1.0", "None", "...", "(2,)", "[2]", "2, ", "value", "'2'"],
+}
+INDEX_USES = ["print(value[{i}])", "result = value[{i}]", "value[{i}] = 0", "value[{i}] += 1", "del value[{i}]",
+              "print(value[{i}][{i}])", "print(len(value), value[{i}])"]
+
+
+def index_fragments(full=True):
+    """-> [(group, head, [fragment text, ...])]: every fragment is a few lines that are a program together with head.
+    full=False (quick tier): every index form as a load through a name, every position 0..5 in every use (load, store,
+    augmented store, deletion, double index), positions and negatives written directly and held in a variable."""
+    out = []
+    head = BOUNDARY_HEAD + INDEX_DEFS
+    for src in INDEX_SOURCES:
+        for gname, idxs in INDEX_GROUPS.items():
+            if full or gname in ("position", "negative"):
+                direct = ["print(%s[%s])\n" % (src, i) for i in idxs]
+                out.append(("index/direct/%s/%s" % (gname, src), head, direct))
+            via = []
+            for i in idxs:
+                uses = INDEX_USES if gname == "position" or (full and gname == "negative") else INDEX_USES[:2 if full else 1]
+                for use in uses:
+                    via.append("value = %s\n%s\n" % (src, use.replace("{i}", i)))
+            out.append(("index/name/%s/%s" % (gname, src), head, via))
+            if gname == "position" or (full and gname in ("negative", "computed")):
+                held = ["value = %s\nposition = %s\nprint(value[position])\n" % (src, i) for i in idxs]
+                out.append(("index/held/%s/%s" % (gname, src), head, held))
+    for setup, name in INDEX_BINDINGS:
+        ind = "    "
+        for gname, idxs in INDEX_GROUPS.items():
+            frags = []
+            for i in idxs:
+                uses = INDEX_USES if gname == "position" else INDEX_USES[:2 if full else 1]
+                for use in uses:
+                    frags.append("\n".join(setup) + "\n" + ind + use.replace("{i}", i) + "\n")
+            out.append(("index/bound/%s/%s" % (gname, setup[0]), head, frags))
+        comp = ["print([value[%s] for value in %s])\n" % (i, setup[0][len("for value in "):-1])
+                for i in INDEX_GROUPS["position"] + INDEX_GROUPS["negative"]] if setup[0].startswith("for value in ") else []
+        if comp:
+            out.append(("index/comprehension/%s" % setup[0], head, comp))
+    return out
+
+
+def _value_call(code):
+    """The `value = f(args)` line of a table-row program -> (line index, callee source, [positional argument sources])."""
+    try:
+        tree = ast.parse(code)
+    except SyntaxError:
+        return None
+    for node in tree.body:
+        if (isinstance(node, ast.Assign) and len(node.targets) == 1 and isinstance(node.targets[0], ast.Name)
+                and node.targets[0].id == "value" and isinstance(node.value, ast.Call) and not node.value.keywords
+                and node.lineno == node.end_lineno):
+            return node.lineno - 1, ast.unparse(node.value.func), [ast.unparse(a) for a in node.value.args]
+    return None
+
+
+def arity_variants(args):
+    vs = ["", ", ".join(args[:-1]), ", ".join(args + ["1"]), ", ".join(args + ["'x'", "None"]),
+          ", ".join(["None"] * len(args)), ", ".join(reversed(args)), ", ".join(args + ["extra=1"]),
+          ", ".join(args[:1] * 4), ", ".join(["[]"] * max(len(args), 1)), ", ".join(["()"] * (len(args) + 1))]
+    seen, out = set(), []
+    for v in vs:
+        if v not in seen and v != ", ".join(args):
+            seen.add(v)
+            out.append(v)
+    return out
+
+
+STAR_VARIANTS = ["*[]", "*[1, 2]", "*'ab'", "**{}", "*(), **{}", "*[[1]]"]
+
+
+def table_arity_fragments(table_progs):
+    """Every generated table row with a well-typed call: the same call with other argument COUNTS.
+    -> (must-complete groups, star-argument groups [calls with *args / **kwargs: not the introductory subset])"""
+    must, star = [], []
+    for table, name, code in table_progs:
+        if code is None:
+            continue
+        found = _value_call(code)
+        if found is None:
+            continue
+        at, callee, args = found
+        lines = code.split("\n")
+        head = "\n".join(lines[:at] + [""]) if at else ""
+        tail = "\n".join(lines[at + 1:])
+        must.append(("arity/%s/%s" % (table, name), head, ["value = %s(%s)\n%s" % (callee, v, tail) for v in arity_variants(args)]))
+        star.append(("star-arguments/%s/%s" % (table, name), head, ["value = %s(%s)\n%s" % (callee, v, tail) for v in STAR_VARIANTS]))
+    return must, star
+
+
+def user_arity_fragments():
+    out = []
+    for p in range(0, 4):
+        for d in range(0, p + 1):
+            for var in ("", "*rest", "*rest, **kw", "**kw", "*, key=1"):
+                params = ["p%d" % i for i in range(p - d)] + ["q%d=%d" % (i, i) for i in range(d)] + ([var] if var else [])
+                body = " + ".join(["0"] + ["p%d" % i for i in range(p - d)] + ["q%d" % i for i in range(d)])
+                head = "def func(%s):\n    return %s\n" % (", ".join(params), body)
+                frags = []
+                for k in range(0, p + 3):
+                    for named in ("", "q0=5", "zz=1", "key=2"):
+                        args = [str(i) for i in range(k)] + ([named] if named else [])
+                        frags.append("result = func(%s)\nprint(result)\n" % ", ".join(args))
+                out.append(("arity/user/%d-%d-%s" % (p, d, var), head, frags))
+                if var.startswith("*rest"):
+                    for pos in range(0, 3):
+                        head2 = "def func(%s):\n    return rest[%d]\n" % (", ".join(params), pos)
+                        out.append(("arity/user-rest/%d-%d-%s-%d" % (p, d, var, pos), head2,
+                                    ["print(func(%s))\n" % ", ".join(str(i) for i in range(k)) for k in range(0, p + 4)]))
+    for p in range(0, 3):
+        ps = "".join(", p%d" % i for i in range(p))
+        head = ("class Thing:\n    def __init__(self%s):\n        self.size = 1\n    def grow(self%s):\n        return self.size\n" % (ps, ps))
+        frags = []
+        for k in range(0, p + 2):
+            a = ", ".join(str(i) for i in range(k))
+            frags.append("item = Thing(%s)\nprint(item.grow(%s))\n" % (a, a))
+            frags.append("func = lambda %s: 1\nprint(func(%s))\n" % (", ".join("p%d" % i for i in range(p)), a))
+        out.append(("arity/method-lambda/%d" % p, head, frags))
+    return out
+
+
+UNPACK_SOURCES = ["()", "(1,)", "(1, 'a')", "(1, 'a', 2.5)", "divmod(17, 5)", "'a-b'.partition('-')", "[1, 2]", "[]", "'ab'",
+                  "{'a': 1}", "input()", "5", "None", "pair()", "[(1, 2)][0]", "range(2)", "(1, (2, 3))", "((1, 2), 3)",
+                  "input().split()", "[[1, 2], [3, 4]]"]
+UNPACK_TARGETS = ["a", "a,", "a, b", "a, b, c", "a, b, c, d", "*a,", "a, *b", "*a, b", "a, *b, c", "a, b, *c", "a, b, c, *d",
+                  "(a, b), c", "a, (b, c)", "[a, b]", "a, b.attr", "a, b[0]", "a, (b, *c)", "(a,), b"]
+UNPACK_LOOPS = ["{'a': 1}.items()", "enumerate(['a'])", "zip([1], [2])", "zip([1], [2], [3])", "[(1, 'a'), (2, 'b')]",
+                "[(1,), (2,)]", "[1, 2]", "'ab'", "{'a': 1}", "[]", "range(3)", "zip()", "enumerate([])", "{}.items()",
+                "[[1, 2], [3, 4]]", "enumerate(zip([1], [2]))", "{'a': (1, 2)}.items()"]
+
+
+def unpack_fragments():
+    import re
+    out = []
+    head = "def pair():\n    return 1, 'a'\nb = [0]\n"
+    for s in UNPACK_SOURCES:
+        frags = []
+        for t in UNPACK_TARGETS:
+            names = sorted(set(re.findall(r"\b[a-d]\b", t)))
+            frags.append("%s = %s\nprint(%s)\n" % (t, s, ", ".join(names)))
+        out.append(("unpack/assign/%s" % s, head, frags))
+    for s in UNPACK_LOOPS:
+        frags = []
+        for t in UNPACK_TARGETS:
+            names = sorted(set(re.findall(r"\b[a-d]\b", t)))
+            frags.append("for %s in %s:\n    print(%s)\n" % (t, s, ", ".join(names)))
+            if ".attr" not in t and "[0]" not in t:
+                frags.append("print([(%s) for %s in %s])\n" % (", ".join(names), t, s))
+        out.append(("unpack/loop/%s" % s, "b = [0]\n", frags))
+    return out
+
+
+ANNOTATION_HEADS = ["list", "dict", "tuple", "set", "frozenset", "List", "Dict", "Tuple", "Set", "Optional", "Union", "int",
+                    "str", "type", "Callable", "Iterable"]
+ANNOTATION_ARGS = ["()", "int", "int, str", "int, str, float", "(int,)", "(int, str)", "int, ...", "...", "[int]", "[int], str",
+                   "None", "'int'", "list[int]", "tuple[int, str]", "dict[str, int], int", "1", "int | str"]
+
+
+def annotation_fragments():
+    out = []
+    head = "from typing import List, Dict, Tuple, Set, Optional, Union, Callable, Iterable\n"
+    for h in ANNOTATION_HEADS:
+        frags = []
+        for n, a in enumerate(ANNOTATION_ARGS):
+            ann = "%s[%s]" % (h, a)
+            frags.append("value%d: %s = None\nprint(value%d)\n" % (n, ann, n))
+            frags.append("def func%d(param: %s) -> %s:\n    return param\nprint(func%d(None))\n" % (n, ann, ann, n))
+            for k in (0, 1, 2, 3):
+                frags.append("def at%d_%d(param: %s):\n    return param[%d]\nprint(at%d_%d(None))\n" % (n, k, ann, k, n, k))
+        out.append(("annotation/%s" % h, head, frags))
+    return out
+
+
+RECEIVER_SIZES = {
+    "StrType": ["''", "'a'", "'ab cd'"], "ListType": ["[]", "[1]", "[1, 2]", "[1, 'a']", "[[]]"],
+    "DictType": ["{}", "{'a': 1}", "{'a': 1, 'b': 2}", "{'a': 1, 2: 'b'}"], "SetType": ["set()", "{1}", "{1, 'a'}"],
+    "TupleType": ["()", "(1,)", "(1, 'a')"],
+}
+
+
+def receiver_fragments(table_progs):
+    out = []
+    per_table = {}
+    for table, name, code in table_progs:
+        if code is None or table not in RECEIVER_SIZES:
+            continue
+        found = _value_call(code)
+        if found is None:
+            continue
+        per_table.setdefault(table, []).append((name, found[2]))
+    for table, methods in sorted(per_table.items()):
+        for recv in RECEIVER_SIZES[table]:
+            frags = ["value = receiver.%s(%s)\nprint(value)\nprint(receiver)\n" % (name, ", ".join(args)) for name, args in methods]
+            frags += ["for element in receiver.%s(%s):\n    print(element)\n" % (name, ", ".join(args)) for name, args in methods]
+            out.append(("receiver/%s/%s" % (table, recv), "receiver = %s\n" % recv, frags))
+    return out
+
+
+def nesting_fragments():
+    frags = ["return 1\n", "return\n", "global total\ntotal = 1\nprint(total)\n", "nonlocal_free = 1\nprint(nonlocal_free)\n",
+             "def a():\n    return 1\nprint(a())\n",
+             "def a():\n    def b():\n        return 1\n    return b()\nprint(a())\n",
+             "def a():\n    def b():\n        def c():\n            return 1\n        return c()\n    return b()\nprint(a())\n",
+             "def a():\n    def b():\n        def c():\n            def d():\n                return 1\n            return d()\n        return c()\n    return b()\nprint(a())\n",
+             "def a():\n    class Inner:\n        def m(self):\n            return 1\n    return Inner().m()\nprint(a())\n",
+             "class Outer:\n    class Inner:\n        def m(self):\n            def helper():\n                return 1\n            return helper()\nprint(Outer.Inner().m())\n",
+             "if True:\n    def a():\n        return 1\n    print(a())\n",
+             "for i in range(2):\n    def a():\n        return i\n    print(a())\n",
+             "while True:\n    def a():\n        return 1\n    break\n",
+             "def a():\n    global g\n    g = 1\n    def b():\n        global g\n        g = 2\n    b()\na()\nprint(g)\n",
+             "def a():\n    x = 1\n    def b():\n        nonlocal x\n        x = 2\n        def c():\n            nonlocal x\n            x = 3\n        c()\n    b()\n    return x\nprint(a())\n",
+             "def a(n):\n    if n:\n        for i in range(n):\n            while i:\n                if i > 1:\n                    return i\n                i -= 1\n    return 0\nprint(a(3))\n"]
+    bodies = [["pass"], ["pass", "pass"], ["x = 1"], ["x = 1", "pass"], ["print(1)"]]
+    for body in bodies:
+        for orelse in [[]] + bodies:
+            for test in ("True", "x > 0", "input()"):
+                text = "x = 0\nif %s:\n%s" % (test, "".join("    %s\n" % l for l in body))
+                if orelse:
+                    text += "else:\n%s" % "".join("    %s\n" % l for l in orelse)
+                frags.append(text + "print(x)\n")
+    return [("nesting", "", frags)]
+
+
+def pack_fragments(groups, individually=False, chunk=40):
+    """[(group, head, [fragment, ...])] -> [(origin, code)].  Packed: the fragments of a group one after the other
+    (at most `chunk` per program); individually: one program per fragment."""
+    out = []
+    for group, head, frags in groups:
+        if not frags:
+            continue
+        if individually:
+            for f in frags:
+                out.append((group, head + f))
+        else:
+            for k in range(0, len(frags), chunk):
+                out.append((group, head + "".join(frags[k:k + chunk])))
+    return out
+
+
+def boundary_programs(table_progs, individually=False, full=False):
+    """-> (must-complete [(origin, code)], only-must-return [(origin, code)])"""
+    arity, star = table_arity_fragments(table_progs)
+    groups = (index_fragments(full) + arity + user_arity_fragments() + unpack_fragments() + annotation_fragments()
+              + receiver_fragments(table_progs) + nesting_fragments())
+    return pack_fragments(groups, individually), pack_fragments(star, individually)
